@@ -10,6 +10,8 @@ import M3d.Lemmas.BlurIter
 import M3d.Lemmas.ArapOp
 import M3d.Lemmas.DeformTargets
 import M3d.Lemmas.ArapLin
+import M3d.Lemmas.MeshHeap
+import M3d.Lemmas.ArapLoop
 /-!
 # C10 — mesh processing keeps closed oriented manifolds closed, oriented, manifold
 
@@ -269,6 +271,39 @@ example :
       (pi - 4 / 10 ^ 16 ≤ c ∧ c ≤ pi + 4 / 10 ^ 16) := by
   refine ⟨by decide +kernel, quadLoop_noTol _ _ _ (by decide +kernel) (by decide +kernel) _ _, by decide +kernel⟩
 
+/-- **`flip_pingpong_when_no_sum_is_below_the_threshold`** — the two termination defects repaired
+by /repo `078e20f` and `9d5c866`, for ANY scalar type with a `<` that need not be total (float64:
+every comparison with NaN is false).  If neither of the two computed sums of a pair of triangles is
+`< pi + tol`, the loop on that pair never returns: for EVERY fuel the result is `none`.  Both arose
+on thin, edge-subdivided tori, where flips produce triangles with three colinear corners, the code
+computing the angles as `math.Acos(v1.Normalize().Dot(v2.Normalize()))`:
+(1) one diagonal's sum was `π + 0.50` (a folded pair) and the other NaN — the cosine of the
+degenerate angle came out as `1.0000000000000002`;
+(2) four colinear vertices: the true sums are `π + 0` and `0 + π`, i.e. `S0 = S1 = π`, but `Acos` near
+`±1` is only accurate to `√(2·2⁻⁵³) ≈ 1.49·10⁻⁸`, and both computed sums were `π + 1.49·10⁻⁸ ≥ π +
+10⁻⁸` — the hypothesis `δ < tol` of `flip_no_pingpong` fails for that formula.
+The repaired code computes `math.Atan2(|v1×v2|, v1·v2)` (never NaN, accurate to a few `10⁻¹⁶`
+everywhere — a fact about the float library, not proved here), for which `δ < tol` holds and
+`flip_no_pingpong` applies: see the `example`. -/
+theorem flip_pingpong_when_no_sum_is_below_the_threshold {α : Type} [LT α] [DecidableLT α] [Add α]
+    (pi tol c0 c1 : α) (h0 : ¬ c0 < pi + tol) (h1 : ¬ c1 < pi + tol) (fuel : Nat) (d : Bool) :
+    quadLoop (wantsFlip pi tol) c0 c1 fuel d = none :=
+  quadLoop_both_flip _ c0 c1 (wantsFlip_of_not_lt pi tol c0 h0) (wantsFlip_of_not_lt pi tol c1 h1) fuel d
+
+/-- The degenerate pair on four colinear vertices (`S0 = S1 = π`, rational stand-in for `π`): with the
+`Acos` error `1.49·10⁻⁸` on both computed sums the loop is still running after 1000 iterations
+(by the theorem, after any number); with sums accurate to `10⁻¹⁵` (`Atan2`) it returns at once
+without a flip, as `flip_no_pingpong` promises for `δ = 10⁻¹⁵ < tol = 10⁻⁸`. -/
+example :
+    let pi : Rat := 355 / 113
+    let tol : Rat := 1 / 10 ^ 8
+    quadLoop (wantsFlip pi tol) (pi + 149 / 10 ^ 10) (pi + 149 / 10 ^ 10) 1000 false = none ∧
+      quadLoop (wantsFlip pi tol) (pi + 1 / 10 ^ 15) (pi - 1 / 10 ^ 15) 2 false = some false ∧
+      (∀ d fuel, ∃ r, quadLoop (wantsFlip pi tol) (pi + 1 / 10 ^ 15) (pi - 1 / 10 ^ 15) (fuel + 2) d = some r) := by
+  refine ⟨quadLoop_both_flip _ _ _ (by decide +kernel) (by decide +kernel) _ _, by decide +kernel, fun d fuel => ?_⟩
+  exact flip_no_pingpong (355 / 113) (1 / 10 ^ 8) (1 / 10 ^ 15) (355 / 113) (355 / 113) _ _ (by norm_num)
+    (by constructor <;> norm_num) (by constructor <;> norm_num) (by norm_num) d fuel
+
 /-- **`flip_loop_terminates_of_measure`** (the scheme): for every decision `dec` and every
 iteration order, if some natural-valued measure of the mesh strictly decreases at every flip the
 loop performs, `FlipDelaunay` returns after at most `μ(input)` flips with a mesh on which no
@@ -323,7 +358,9 @@ example :
 /-- **`flip_preserves`, edge part** (`_partial`: the statement wanted is `ClosedManifold ts →
 ClosedManifold ts'`; that the four changed vertex fans stay single cycles is not proved and is
 decided per real output).  The surgery `Remove(t0); Remove(t1); Add{o1,o2,p2}; Add{p1,o2,o1}`
-guarded by "`o1 o2` is not yet an edge" (the guard added by repair `6d8398d`) keeps the soup
+guarded by "`o1 o2` is not yet an edge" (the guard added by repair `6d8398d`), with `p1`, `p2` ordered by
+the winding of `t0` (`findOpp` on the DIRECTED edge — the code does exactly this since repair
+`48d8902`; before, it compared normals, which reversed a face next to a degenerate triangle), keeps the soup
 edge-balanced — closed, consistently oriented, every edge on exactly two faces —, creates no
 degenerate face and keeps the number of faces, whenever the two opposite corners differ (no two
 faces on the same three vertices: `noDupFace`, checked on every input). -/
@@ -535,6 +572,239 @@ example :
   decide
 
 end Arap
+
+/-! ## Programs: a mesh handed to an operation is still the same mesh afterwards -/
+
+section Programs
+open M3d.MeshHeap
+
+/-- **`eliminate_edges_leaves_every_object_unchanged`** — "EliminateEdges creates a new mesh".  In Go
+a `*Mesh` is a set of `*Triangle` pointers and `eliminateSegment` overwrites corners of the
+surviving triangles in place (`neighbor[i] = mp`).  For the code as it is — every triangle is
+copied into a fresh cell first (`t1 := *t; result.Add(&t1)`), then the collapses run on the copies —
+and for every decision oracle (`f`, `canEliminateSegment`, map order: `pick` on the current mesh),
+every number of collapses, every heap and every well-formed input object: the returned object
+denotes the value-level result `elimLoopVal`, and EVERY object that existed before the call — the
+input itself, and any other mesh sharing triangles with it — denotes afterwards exactly the mesh it
+denoted before.  The harness re-encodes the real input object after every real call and the driver
+demands the same soup (`input-unchanged`). -/
+theorem eliminate_edges_leaves_every_object_unchanged (pick : List Tri → Option (Nat × Nat × Nat)) (fuel : Nat)
+    (h : Heap) (o : Obj) (w : WF h o) :
+    deref (elimEdgesPtr pick fuel h o).1 (elimEdgesPtr pick fuel h o).2 = elimLoopVal pick fuel (deref h o) ∧
+      WF (elimEdgesPtr pick fuel h o).1 (elimEdgesPtr pick fuel h o).2 ∧
+      ∀ o' : Obj, (∀ p ∈ o', p < h.next) → deref (elimEdgesPtr pick fuel h o).1 o' = deref h o' := by
+  obtain ⟨w', s, hd⟩ := elimEdgesPtr_faithful pick fuel h o w
+  exact ⟨hd, w', fun o' ho' => deref_stable s ho'⟩
+
+/-- The octahedron (`±x = 0, 1`, `±y = 2, 3`, `±z = 4, 5`), one collapse of the edge `0 2` into the
+new point `9`.  The code as it is and the variant working on `m.Copy()` (same pointers; seeded
+change C10-10) RETURN the same closed manifold — a bipyramid with 6 faces — but after the shallow
+variant the input object no longer denotes the octahedron: the two dropped faces are still in it,
+four others were rewritten, and what it denotes is not a closed manifold. -/
+example :
+    let oct : List Tri := [(0,2,4),(2,1,4),(1,3,4),(3,0,4),(2,0,5),(1,2,5),(3,1,5),(0,3,5)]
+    let pick : List Tri → Option (Nat × Nat × Nat) := fun ts => if ts.length = 8 then some (0, 2, 9) else none
+    let good := elimEdgesPtr pick 10 (ofList oct).1 (ofList oct).2
+    let bad := elimEdgesShallow pick 10 (ofList oct).1 (ofList oct).2
+    closedManifold (deref good.1 good.2) = true ∧ (deref good.1 good.2).length = 6 ∧
+      deref bad.1 bad.2 = deref good.1 good.2 ∧
+      deref good.1 (ofList oct).2 = oct ∧
+      deref bad.1 (ofList oct).2 = [(0,2,4),(9,1,4),(1,3,4),(3,9,4),(2,0,5),(1,9,5),(3,1,5),(9,3,5)] ∧
+      closedManifold (deref bad.1 (ofList oct).2) = false := by
+  decide +kernel
+
+/-- **`eliminate_edges_terminates`**: `canEliminateSegment` is only asked about segments of
+triangles of the mesh being edited, so every collapse removes at least the triangles on that
+segment: the number of faces strictly decreases, and for every decision oracle the loop has
+nothing left to collapse after at most `F` collapses (`F` = number of input faces); the result
+has at most `F` faces. -/
+theorem eliminate_edges_terminates (pick : List Tri → Option (Nat × Nat × Nat))
+    (hp : ∀ ts a b mp, pick ts = some (a, b, mp) → ∃ t ∈ ts, hasBoth t a b = true) (ts : List Tri) :
+    pick (elimLoopVal pick ts.length ts) = none ∧ (elimLoopVal pick ts.length ts).length ≤ ts.length :=
+  ⟨elimLoopVal_terminates pick hp ts.length ts (Nat.le_refl _), elimLoopVal_length_le pick ts.length ts⟩
+
+/-- **`operations_writing_only_fresh_triangles_leave_objects_unchanged`** — the discipline behind
+"creates a new mesh", for every operation of the anchored files.  Whatever object an operation
+starts to build from — an empty mesh, a deep copy, or the SHALLOW `m.Copy()` that `FlipDelaunay`,
+the decimators and the 2-D `Decimate` / `EliminateColinear` use — and whatever sequence of
+`Remove`, `Add(&Triangle{…})` and in-place writes it performs: if every in-place write goes to a
+triangle the operation allocated itself (`FlipDelaunay` and the decimators perform none at all),
+every mesh object that existed before the call denotes the same mesh afterwards. -/
+theorem operations_writing_only_fresh_triangles_leave_objects_unchanged (h : Heap) (start : Obj) (steps : List Step)
+    (hw : writesOnlyFresh h.next steps = true) :
+    ∀ o' : Obj, (∀ p ∈ o', p < h.next) → deref (runSteps steps (h, start)).1 o' = deref h o' :=
+  fun _ ho' => deref_stable (runSteps_stable h steps (h, start) (Stable.refl h) hw) ho'
+
+/-- A flip on the shallow copy of the bipyramid `0 1 2 | 3 4` (pointers `0 … 5`): remove the two
+faces at the edge `0 1`, add the two faces at `3 4` — no write, the input still denotes the
+bipyramid and the result is the flipped closed manifold.  Overwriting cell `0` in place instead
+(`*t = Triangle{…}`) is a write to a triangle of the input: `writesOnlyFresh` is false and the
+input changes. -/
+example :
+    let bip : List Tri := [(0,1,3),(1,2,3),(2,0,3),(1,0,4),(2,1,4),(0,2,4)]
+    let s := ofList bip
+    let flip : List Step := [.remove 0, .remove 3, .add (3,4,1), .add (0,4,3)]
+    let inPlace : List Step := [.write 0 (3,4,1), .write 3 (0,4,3)]
+    writesOnlyFresh s.1.next flip = true ∧ deref (runSteps flip s).1 s.2 = bip ∧
+      closedManifold (deref (runSteps flip s).1 (runSteps flip s).2) = true ∧
+      writesOnlyFresh s.1.next inPlace = false ∧ deref (runSteps inPlace s).1 s.2 ≠ bip := by
+  decide +kernel
+
+/-- **`program_on_objects_is_program_on_values`** — the quantifier "all chains of these operations"
+over Go programs.  A program is a list of instructions `v_new := op(v_src)` over variables holding
+mesh objects; `src` may name ANY earlier variable, any number of times (a mesh is used again after
+it was handed to an operation).  If every operation is `Faithful` — it computes its value-level
+function and writes only to triangles it allocated itself (`EliminateEdges` is, by the theorem
+above; operations that build their result with `NewMesh` + `Add(&Triangle{…})` trivially are) —
+then, for every heap and all well-formed initial objects: the meshes denoted by the variables at
+the END of the program are exactly the values the same program computes over mesh VALUES, and every
+initial variable still denotes its initial mesh.  So each operation of the program received exactly
+the mesh the value-level program hands it. -/
+theorem program_on_objects_is_program_on_values (prog : List Instr) (h : Heap) (vars : List Obj)
+    (hf : ∀ i ∈ prog, Faithful i.hop i.fn) (hw : ∀ o ∈ vars, WF h o) :
+    (runHeap prog (h, vars)).2.map (deref (runHeap prog (h, vars)).1) = runPure prog (vars.map (deref h)) ∧
+      (∀ o ∈ vars, deref (runHeap prog (h, vars)).1 o = deref h o) ∧ vars <+: (runHeap prog (h, vars)).2 := by
+  obtain ⟨e, _, s, hp⟩ := runHeap_eq_runPure prog h vars hf hw
+  exact ⟨e, fun o ho => deref_stable s (hw o ho).2, hp⟩
+
+/-- **`program_keeps_closed_manifolds`**: if moreover every value-level operation maps closed
+oriented manifolds to closed oriented manifolds and the program starts from closed oriented
+manifolds, every variable of the program — intermediate results and inputs alike — denotes a closed
+oriented manifold when the program ends, whatever the order in which meshes are re-used. -/
+theorem program_keeps_closed_manifolds (prog : List Instr) (h : Heap) (vars : List Obj)
+    (hf : ∀ i ∈ prog, Faithful i.hop i.fn) (hw : ∀ o ∈ vars, WF h o)
+    (hc : ∀ i ∈ prog, ∀ ts, ClosedManifold ts → ClosedManifold (i.fn ts))
+    (hv : ∀ o ∈ vars, ClosedManifold (deref h o)) :
+    ∀ o ∈ (runHeap prog (h, vars)).2, ClosedManifold (deref (runHeap prog (h, vars)).1 o) := by
+  obtain ⟨e, _, _, _⟩ := runHeap_eq_runPure prog h vars hf hw
+  intro o ho
+  apply runPure_closed prog (vars.map (deref h)) hc
+  · intro v hv'
+    obtain ⟨o', ho', rfl⟩ := List.mem_map.1 hv'
+    exact hv o' ho'
+  · rw [← e]; exact List.mem_map.2 ⟨o, ho, rfl⟩
+
+/-- Non-vacuity and separation: the program `b := a.EliminateEdges(f); c := a.DeepCopy()` on the
+octahedron (`DeepCopy` = the copying loop alone).  With the code as it is (`Faithful`, so the
+theorems apply) `b` is the closed bipyramid and `a`, `c` are the octahedron; with the shallow
+variant `a` is what the first call left behind, so neither `a` nor `c` is a closed manifold. -/
+example :
+    let oct : List Tri := [(0,2,4),(2,1,4),(1,3,4),(3,0,4),(2,0,5),(1,2,5),(3,1,5),(0,3,5)]
+    let pick : List Tri → Option (Nat × Nat × Nat) := fun ts =>
+      if ts.any (fun t => hasBoth t 0 2) then some (0, 2, 9) else none
+    let prog (op : HOp) : List Instr :=
+      [⟨0, op, elimLoopVal pick 1⟩, ⟨0, elimEdgesPtr (fun _ => none) 0, elimLoopVal (fun _ => none) 0⟩]
+    let good := runHeap (prog (elimEdgesPtr pick 1)) ((ofList oct).1, [(ofList oct).2])
+    let bad := runHeap (prog (elimEdgesShallow pick 1)) ((ofList oct).1, [(ofList oct).2])
+    (∀ i ∈ prog (elimEdgesPtr pick 1), Faithful i.hop i.fn) ∧
+      good.2.map (deref good.1) = runPure (prog (elimEdgesPtr pick 1)) [oct] ∧
+      (good.2.map fun o => closedManifold (deref good.1 o)) = [true, true, true] ∧
+      (bad.2.map fun o => closedManifold (deref bad.1 o)) = [false, true, false] := by
+  refine ⟨?_, by decide +kernel, by decide +kernel, by decide +kernel⟩
+  intro i hi
+  simp only [List.mem_cons, List.not_mem_nil, or_false] at hi
+  rcases hi with hi | hi <;> subst hi <;> exact elimEdgesPtr_faithful _ _
+
+end Programs
+
+/-! ## `ARAP`: the control loop — accuracy does not depend on the size of the model -/
+
+section ArapLoop
+open M3d.ArapLoop
+
+/-- **`arap_loop_stops_by_the_relative_rule`** — `ARAP.deformMap` as it is
+(`if iter+1 >= minIters && 1-energy/lastEnergy < tolerance { break }`), for every scalar type
+(`Float` included: nothing but the control flow is used), every energy sequence and all settings:
+the number `n` of linear solves it performs is at most `MaxIterations`; if it is smaller, then
+`n ≥ MinIterations`, `n ≥ 1` and the last solve lowered the energy by less than the fraction
+`Tolerance`; no earlier permitted iteration passed that test; hence `n` is an allowed stop. -/
+theorem arap_loop_stops_by_the_relative_rule {α : Type} [Sub α] [Div α] [OfNat α 1] [LT α] [DecidableLT α]
+    [BEq α] [OfNat α 0] (tol : α) (minIters maxIters : Nat) (E : Nat → α) :
+    let n := countRel tol minIters maxIters E
+    n ≤ maxIters ∧ (n < maxIters → minIters ≤ n ∧ 0 < n ∧ converged tol (E n) (E (n - 1)) = true) ∧
+      (∀ k, 0 < k → k < n → minIters ≤ k → converged tol (E k) (E (k - 1)) = false) ∧
+      allowedStop tol minIters maxIters E n = true := by
+  intro n
+  obtain ⟨_, h2, h3, h4⟩ := loopFrom_spec (converged tol) minIters E maxIters 0
+  simp only [Nat.zero_add] at h2 h3
+  exact ⟨h2, fun h => h3 h, h4, allowedStop_countRel tol minIters maxIters E⟩
+
+/-- **`arap_stop_rule_is_scale_free`**: the ARAP energy is quadratic in the size of the model
+(a model scaled by `s` has the energies `s²·E_k`).  For every factor `c ≠ 0` the loop performs the
+same number of iterations on the energies `c·E_k` as on `E_k`, and the same stops are allowed: the
+accuracy reached, measured in model sizes, is the same for a model of a micrometre and of a
+kilometre. -/
+theorem arap_stop_rule_is_scale_free {K : Type} [Field K] [LinearOrder K] [IsStrictOrderedRing K]
+    (c tol : K) (hc : c ≠ 0) (minIters maxIters : Nat) (E : Nat → K) :
+    countRel tol minIters maxIters (fun k => c * E k) = countRel tol minIters maxIters E ∧
+      ∀ n, allowedStop tol minIters maxIters (fun k => c * E k) n = allowedStop tol minIters maxIters E n :=
+  ⟨countRel_scale c tol hc minIters maxIters E, allowedStop_scale c tol hc minIters maxIters E⟩
+
+/-- **`arap_no_early_stop_while_energy_drops`** — what the driver reports.  No allowed stop lies
+before `MaxIterations` at an iteration count `n` around which a positive energy is still falling by
+at least the fraction `Tolerance` per iteration (`stillDropping`: into `n` and after `n`, above a
+non-negative `guard`).  So a real run that stops there is not stopping by convergence. -/
+theorem arap_no_early_stop_while_energy_drops {K : Type} [Field K] [LinearOrder K] [IsStrictOrderedRing K]
+    (tol guard : K) (ht : tol < 1) (hg : 0 ≤ guard) (minIters maxIters : Nat) (E : Nat → K) (n : Nat)
+    (hn : n < maxIters) (hd : stillDropping tol guard E n = true) :
+    allowedStop tol minIters maxIters E n = false := by
+  cases h : allowedStop tol minIters maxIters E n with
+  | false => rfl
+  | true => exact (no_allowed_stop_while_dropping tol guard minIters maxIters E n ht hg hn h hd).elim
+
+/-- **`arap_runs_its_budget_while_energy_drops`** — "reproduces a rigid motion when the constraints
+are one", as far as an iteration can.  When the handles follow one rigid motion the minimum of the
+energy is `0`, attained at the rigid image (`arap_energy_zero_at_rigid_image`, which is a fixed point
+of the linear step: `arap_rigid_motion_solves_linear_step`).  If the energies stay positive and fall
+by at least the fraction `Tolerance` in every iteration of the budget, the only allowed stop is
+`MaxIterations`, and the final energy is at most `(1 - Tolerance)^MaxIterations · E_0` — a bound
+relative to the initial energy, i.e. independent of the size of the model. -/
+theorem arap_runs_its_budget_while_energy_drops {K : Type} [Field K] [LinearOrder K] [IsStrictOrderedRing K]
+    (tol : K) (ht : tol < 1) (minIters maxIters : Nat) (E : Nat → K)
+    (hpos : ∀ k, k ≤ maxIters → 0 < E k) (hdrop : ∀ k, k < maxIters → E (k + 1) ≤ (1 - tol) * E k) (n : Nat)
+    (ha : allowedStop tol minIters maxIters E n = true) :
+    n = maxIters ∧ E maxIters ≤ (1 - tol) ^ maxIters * E 0 := by
+  refine ⟨?_, geometric_bound tol maxIters E ht.le hdrop maxIters (Nat.le_refl _)⟩
+  by_contra hne
+  unfold allowedStop at ha
+  simp only [Bool.or_eq_true, Bool.and_eq_true, decide_eq_true_eq, beq_iff_eq] at ha
+  rcases ha with ha | ⟨⟨⟨hlt, _⟩, h1⟩, hcs⟩
+  · exact hne ha
+  · have hd := hdrop (n - 1) (by omega)
+    rw [show n - 1 + 1 = n by omega] at hd
+    rcases hcs with hc | hs
+    · rw [not_converged_of_drop tol _ _ (hpos (n - 1) (by omega)) hd] at hc
+      exact Bool.false_ne_true hc
+    · have := hpos n (by omega)
+      unfold spent at hs
+      simp only [Bool.or_eq_true, beq_iff_eq, Bool.not_eq_true', beq_eq_false_iff_ne, ne_eq, not_true_eq_false, or_false] at hs
+      linarith
+
+/-- Energies halving in every iteration (`E_k = s/2^k`), tolerance `1/1000`, `MinIterations = 2`,
+budget 30.  At every size `s` the loop as it is uses its whole budget (the hypotheses of the theorem
+above hold: non-vacuity).  With an absolute floor `E < 10⁻¹⁴` in front of the test (seeded change
+C10-11) a model of size `2⁻²⁰` (`s = 2⁻⁴⁰`) stops after 7 iterations and one of size `2⁻³⁰`
+right at `MinIterations`, although the energy is still halving: not an allowed stop, and exactly
+what the driver's `stillDropping` test sees. -/
+example :
+    let E (s : Rat) : Nat → Rat := fun k => s / 2 ^ k
+    let tol : Rat := 1 / 1000
+    let floor : Rat := 1 / 10 ^ 14
+    countRel tol 2 30 (E 1) = 30 ∧ countRel tol 2 30 (E (1 / 2 ^ 60)) = 30 ∧
+      count (convergedFloor floor tol) 2 30 (E (1 / 2 ^ 40)) = 7 ∧
+      count (convergedFloor floor tol) 2 30 (E (1 / 2 ^ 60)) = 2 ∧
+      allowedStop tol 2 30 (E (1 / 2 ^ 60)) 2 = false ∧ stillDropping tol 0 (E (1 / 2 ^ 60)) 2 = true ∧
+      allowedStop tol 2 30 (E (1 / 2 ^ 60)) 30 = true ∧
+      (∀ k, k < 30 → E 1 (k + 1) ≤ (1 - tol) * E 1 k) := by
+  refine ⟨by decide +kernel, by decide +kernel, by decide +kernel, by decide +kernel, by decide +kernel,
+    by decide +kernel, by decide +kernel, ?_⟩
+  intro k _
+  simp only
+  rw [pow_succ, ← div_div]
+  have : (0 : Rat) < 1 / 2 ^ k := by positivity
+  linarith
+
+end ArapLoop
 
 /-! ## `ARAP`: the linear step reproduces a rigid motion (one weight table for matrix and right-hand side) -/
 
